@@ -1065,6 +1065,13 @@ fn derive_dot_expression(
         // TypeErr propagation
         (Shape::TypeErr(_, _), _) => left_shape.clone(),
 
+        // A call or copy through a selector: `t.f(1)`, `t.inner{x = 1}`.
+        // We don't model what these resolve to so the result is unconstrained.
+        (_, Expression::Call(_)) | (_, Expression::Copy(_)) => Shape::Narrowed(NarrowedShape {
+            pos: pos.clone(),
+            types: NarrowingShape::Any,
+        }),
+
         // Everything else is invalid
         (_, _) => Shape::TypeErr(pos.clone(), "Invalid field selector".to_owned()),
     }
